@@ -344,4 +344,185 @@ theorem decVal_lt (run : List UInt8) (hd : ∀ b ∈ run, sDigit b = true) (hlen
   have h3 : (10 : Nat) ^ 18 < 9223372036854775808 := by decide
   rw [decVal_eq]; omega
 
+/-! ### two digit runs have the same value iff they are equal up to leading zeros -/
+
+/-- drop the leading `'0'`s of a digit run -/
+def strip (run : List UInt8) : List UInt8 := run.dropWhile (· == 0x30)
+
+theorem decVal_strip : ∀ run : List UInt8, decVal run = decVal (strip run)
+  | [] => rfl
+  | b :: t => by
+    by_cases hb : b = 0x30
+    · subst hb
+      have : strip ((0x30 : UInt8) :: t) = strip t := by simp [strip, List.dropWhile_cons]
+      rw [this, ← decVal_strip t]
+      simp [decVal]
+    · have : strip (b :: t) = b :: t := by simp [strip, List.dropWhile_cons, hb]
+      rw [this]
+
+theorem accN_inj : ∀ (r1 r2 : List UInt8) (v1 v2 : Nat), (∀ b ∈ r1, sDigit b = true) → (∀ b ∈ r2, sDigit b = true) →
+    r1.length = r2.length → accN v1 r1 = accN v2 r2 → v1 = v2 ∧ r1 = r2
+  | [], [], _, _, _, _, _, h => ⟨by simpa [accN] using h, rfl⟩
+  | [], _ :: _, _, _, _, _, hl, _ => by simp at hl
+  | _ :: _, [], _, _, _, _, hl, _ => by simp at hl
+  | b1 :: t1, b2 :: t2, v1, v2, h1, h2, hl, h => by
+    have d1 := (digit_range b1).mp (h1 b1 (by simp))
+    have d2 := (digit_range b2).mp (h2 b2 (by simp))
+    simp only [accN, List.foldl_cons] at h
+    obtain ⟨hv, ht⟩ := accN_inj t1 t2 _ _ (fun x hx => h1 x (by simp [hx])) (fun x hx => h2 x (by simp [hx]))
+      (by simpa using hl) h
+    have hb : b1 = b2 := UInt8.toNat_inj.mp (by omega)
+    exact ⟨by omega, by rw [hb, ht]⟩
+
+theorem accN_ge_pow (run : List UInt8) : ∀ v, v * 10 ^ run.length ≤ accN v run := by
+  induction run with
+  | nil => intro v; simp [accN]
+  | cons b t ih =>
+    intro v
+    have := ih (v * 10 + (b.toNat - 48))
+    simp only [accN, List.foldl_cons, List.length_cons] at this ⊢
+    have h2 : (v * 10) * 10 ^ t.length ≤ (v * 10 + (b.toNat - 48)) * 10 ^ t.length :=
+      Nat.mul_le_mul_right _ (by omega)
+    rw [Nat.pow_succ, Nat.mul_comm (10 ^ t.length) 10, ← Nat.mul_assoc]
+    omega
+
+/-- bounds for a digit run without leading zero -/
+theorem stripped_bounds (b : UInt8) (t : List UInt8) (hd : ∀ x ∈ b :: t, sDigit x = true) (hb : b ≠ 0x30) :
+    10 ^ t.length ≤ decVal (b :: t) ∧ decVal (b :: t) < 10 ^ (t.length + 1) := by
+  have db := (digit_range b).mp (hd b (by simp))
+  have hne : b.toNat ≠ 48 := fun h => hb (UInt8.toNat_inj.mp (by simpa using h))
+  have lo := accN_ge_pow t (0 * 10 + (b.toNat - 48))
+  have hi := accN_lt t (fun x hx => hd x (by simp [hx])) (0 * 10 + (b.toNat - 48))
+  simp only [decVal_eq, accN, List.foldl_cons] at lo hi ⊢
+  have h1 : 1 * 10 ^ t.length ≤ (0 * 10 + (b.toNat - 48)) * 10 ^ t.length := Nat.mul_le_mul_right _ (by omega)
+  have h2 : (0 * 10 + (b.toNat - 48) + 1) * 10 ^ t.length ≤ 10 * 10 ^ t.length := Nat.mul_le_mul_right _ (by omega)
+  rw [Nat.pow_succ, Nat.mul_comm (10 ^ t.length) 10]
+  omega
+
+theorem strip_digits (run : List UInt8) (hd : ∀ b ∈ run, sDigit b = true) : ∀ b ∈ strip run, sDigit b = true :=
+  fun b hb => hd b ((List.dropWhile_sublist _).subset hb)
+
+theorem strip_head (run : List UInt8) : ∀ b t, strip run = b :: t → b ≠ 0x30 := by
+  intro b t h he
+  induction run with
+  | nil => simp [strip] at h
+  | cons c r ih =>
+    by_cases hc : c = 0x30
+    · subst hc; apply ih; simpa [strip, List.dropWhile_cons] using h
+    · have : strip (c :: r) = c :: r := by simp [strip, List.dropWhile_cons, hc]
+      rw [this] at h
+      exact hc (by rw [(List.cons.inj h).1, he])
+
+/-- **same value ⟺ same digits after the leading zeros** -/
+theorem decVal_eq_iff (r1 r2 : List UInt8) (h1 : ∀ b ∈ r1, sDigit b = true) (h2 : ∀ b ∈ r2, sDigit b = true) :
+    decVal r1 = decVal r2 ↔ strip r1 = strip r2 := by
+  constructor
+  · intro h
+    rw [decVal_strip r1, decVal_strip r2] at h
+    have d1 := strip_digits r1 h1
+    have d2 := strip_digits r2 h2
+    have n1 := strip_head r1
+    have n2 := strip_head r2
+    generalize strip r1 = s1 at *
+    generalize strip r2 = s2 at *
+    rcases s1 with _ | ⟨b1, t1⟩ <;> rcases s2 with _ | ⟨b2, t2⟩
+    · rfl
+    · have := (stripped_bounds b2 t2 d2 (n2 b2 t2 rfl)).1
+      have hp : 0 < 10 ^ t2.length := Nat.pow_pos (by decide)
+      have h0 : decVal ([] : List UInt8) = 0 := rfl
+      omega
+    · have := (stripped_bounds b1 t1 d1 (n1 b1 t1 rfl)).1
+      have hp : 0 < 10 ^ t1.length := Nat.pow_pos (by decide)
+      have h0 : decVal ([] : List UInt8) = 0 := rfl
+      omega
+    · have ⟨lo1, hi1⟩ := stripped_bounds b1 t1 d1 (n1 b1 t1 rfl)
+      have ⟨lo2, hi2⟩ := stripped_bounds b2 t2 d2 (n2 b2 t2 rfl)
+      have hlen : t1.length = t2.length := by
+        apply Decidable.byContradiction; intro hne
+        rcases Nat.lt_or_gt_of_ne hne with hlt | hgt
+        · have : 10 ^ (t1.length + 1) ≤ 10 ^ t2.length := Nat.pow_le_pow_right (by decide) hlt
+          omega
+        · have : 10 ^ (t2.length + 1) ≤ 10 ^ t1.length := Nat.pow_le_pow_right (by decide) hgt
+          omega
+      rw [decVal_eq, decVal_eq] at h
+      exact (accN_inj _ _ 0 0 d1 d2 (by simp [hlen]) h).2
+  · intro h; rw [decVal_strip r1, decVal_strip r2, h]
+
+/-! ### keys are equal iff the strings are equal up to leading zeros of digit runs -/
+
+/-- token of the zero-stripped tokenisation -/
+inductive ZTok where
+  | dig (r : List UInt8)
+  | str (p : List UInt8)
+deriving DecidableEq, Repr
+
+/-- the same tokenisation as `key`, but a digit run is kept as its digits without leading zeros
+(instead of its value) -/
+def zkeyF : Nat → List UInt8 → List ZTok
+  | _, [] => []
+  | 0, _ :: _ => []
+  | f+1, b :: t =>
+    if sDigit b then
+      .dig (strip ((b :: t).takeWhile sDigit)) :: zkeyF f ((b :: t).dropWhile sDigit)
+    else
+      .str ((b :: t).takeWhile (fun c => !sDigit c)) :: zkeyF f ((b :: t).dropWhile (fun c => !sDigit c))
+
+def zkey (s : List UInt8) : List ZTok := zkeyF s.length s
+
+theorem zkeyF_fuel : ∀ f g (s : List UInt8), s.length ≤ f → s.length ≤ g → zkeyF f s = zkeyF g s
+  | _, _, [], _, _ => by simp [zkeyF]
+  | 0, _, _ :: _, h, _ => by simp at h
+  | _, 0, _ :: _, _, h => by simp at h
+  | f+1, g+1, b :: t, hf, hg => by
+    simp only [zkeyF]
+    simp only [List.length_cons] at hf hg
+    by_cases hb : sDigit b = true
+    · have h1 : ((b :: t).dropWhile sDigit).length ≤ t.length := by
+        simp only [List.dropWhile_cons, hb, if_true]; exact length_dropWhile_le _ _
+      simp only [hb, if_true]
+      rw [zkeyF_fuel f g ((b :: t).dropWhile sDigit) (by omega) (by omega)]
+    · have h2 : ((b :: t).dropWhile (fun c => !sDigit c)).length ≤ t.length := by
+        simp only [List.dropWhile_cons, hb, Bool.not_false, if_true]; exact length_dropWhile_le _ _
+      simp only [hb, Bool.false_eq_true, if_false]
+      rw [zkeyF_fuel f g ((b :: t).dropWhile (fun c => !sDigit c)) (by omega) (by omega)]
+
+theorem keyF_eq_iff : ∀ f (a b : List UInt8), a.length ≤ f → b.length ≤ f →
+    (keyF f a = keyF f b ↔ zkeyF f a = zkeyF f b)
+  | _, [], [], _, _ => by simp [keyF, zkeyF]
+  | 0, [], _ :: _, _, h => by simp at h
+  | 0, _ :: _, _, h, _ => by simp at h
+  | f+1, [], y :: b', _, _ => by
+    by_cases hy : sDigit y = true <;> simp [keyF, zkeyF, hy]
+  | f+1, x :: a', [], _, _ => by
+    by_cases hx : sDigit x = true <;> simp [keyF, zkeyF, hx]
+  | f+1, x :: a', y :: b', ha, hb => by
+    simp only [List.length_cons] at ha hb
+    simp only [keyF, zkeyF]
+    by_cases hx : sDigit x = true <;> by_cases hy : sDigit y = true
+    · have l1 : ((x :: a').dropWhile sDigit).length ≤ a'.length := by
+        simp only [List.dropWhile_cons, hx, if_true]; exact length_dropWhile_le _ _
+      have l2 : ((y :: b').dropWhile sDigit).length ≤ b'.length := by
+        simp only [List.dropWhile_cons, hy, if_true]; exact length_dropWhile_le _ _
+      have ih := keyF_eq_iff f ((x :: a').dropWhile sDigit) ((y :: b').dropWhile sDigit) (by omega) (by omega)
+      have hv := decVal_eq_iff _ _ (takeWhile_digits (x :: a')) (takeWhile_digits (y :: b'))
+      simp only [hx, hy, if_true, List.cons.injEq, Tok.num.injEq, ZTok.dig.injEq, hv, ih]
+    · simp [hx, hy]
+    · simp [hx, hy]
+    · have l1 : ((x :: a').dropWhile (fun c => !sDigit c)).length ≤ a'.length := by
+        simp only [List.dropWhile_cons, hx, Bool.not_false, if_true]; exact length_dropWhile_le _ _
+      have l2 : ((y :: b').dropWhile (fun c => !sDigit c)).length ≤ b'.length := by
+        simp only [List.dropWhile_cons, hy, Bool.not_false, if_true]; exact length_dropWhile_le _ _
+      have ih := keyF_eq_iff f ((x :: a').dropWhile (fun c => !sDigit c)) ((y :: b').dropWhile (fun c => !sDigit c))
+        (by omega) (by omega)
+      simp only [hx, hy, Bool.false_eq_true, if_false, List.cons.injEq, Tok.str.injEq, ZTok.str.injEq, ih]
+
+/-- equal keys ⟺ equal zero-stripped tokenisations -/
+theorem key_eq_iff_zkey (a b : List UInt8) : key a = key b ↔ zkey a = zkey b := by
+  have f1 := keyF_fuel a.length (a.length + b.length) a (Nat.le_refl _) (by omega)
+  have f2 := keyF_fuel b.length (a.length + b.length) b (Nat.le_refl _) (by omega)
+  have g1 := zkeyF_fuel a.length (a.length + b.length) a (Nat.le_refl _) (by omega)
+  have g2 := zkeyF_fuel b.length (a.length + b.length) b (Nat.le_refl _) (by omega)
+  simp only [key, zkey, f1, f2, g1, g2]
+  exact keyF_eq_iff _ a b (by omega) (by omega)
+
 end MdsVerif.Proofs.NatCmp
